@@ -9,6 +9,8 @@ import (
 	"strings"
 	"testing"
 
+	"github.com/obolnetwork/charon/core/qbft"
+
 	"verifharness/kit"
 	"verifharness/qbftsim"
 )
@@ -68,6 +70,15 @@ func TestCheck(t *testing.T) {
 		}
 		for rule, k := range res.Sim.RuleSeen {
 			r.Count("rule/"+rule.String(), int64(k))
+			// Every member of these cases follows the algorithm (faults are crashes): each ROUND-CHANGE
+			// carries the PREPARE quorum it claims, so a quorum of them always contains a justified
+			// quorum for the next leader to propose from. A member that classifies one as unjustified
+			// (the leader then stays silent) has refused honest messages, like a LogUnjust report.
+			if rule == qbft.UponUnjustQuorumRoundChanges && k > 0 {
+				c.Violation("qbft/honest-round-change-quorum-judged-unjust",
+					fmt.Sprintf("with only honest (crash-faulty at most) members a quorum of ROUND-CHANGE messages for one round was classified as unjustified %d times (timer %s, n=%d)", k, res.Meta.Timer, res.Meta.N),
+					map[string]any{"meta": res.Meta, "decide_round": res.DecideRound, "trace_tail": tail(res.Trace, 60)})
+			}
 		}
 		if eff > 0 || res.Sim.MaxRound > 1 {
 			c.NonTrivial(kit.Hash(res.SubsetKey, fmt.Sprint(res.Meta.Faults), res.DecideRound, res.Meta.Timer, res.Meta.Instance))
